@@ -460,7 +460,7 @@ def h_traceback(I, fi):
         P.check("traceback.initial-budget", z3.And(P.z(v0) >= 0, P.z(v0) <= P.z(idxs_at(dq)), P.z(v0) == P.z(alg.raw_app("S_choice", dq, idxs_at(dq), sort="Int"))),
                 "the children's total budget is log_S_choice[d, idx(node)[d]], which is in [0, idx(node)[d]]", kind="post")
         rng_ = I_.eval(node.iter, fr)
-        P.check("traceback.visits-every-child-once", isinstance(rng_, SymSeq) and P.z(rng_.length) == P.z(n) and P.z(I_.to_num(rng_.core_at(I_, Num.const(0)))) == P.z(n) - 1,
+        P.check("traceback.visits-every-child-once", dsl.conj(isinstance(rng_, SymSeq), P.z(rng_.length) == P.z(n), P.z(I_.to_num(rng_.core_at(I_, Num.const(0)))) == P.z(n) - 1),
                 "children are visited from the last to the first, each exactly once", kind="post")
         # inductive step: arbitrary child i, arbitrary remaining budgets satisfying the invariant
         i = rng_.fresh_index(I_, "pos")
